@@ -20,7 +20,7 @@ import views
 from c03 import Recorder
 
 PID = "C04"
-PROPS = ["Aldy.Props.C04", "Aldy.Props.C04Score", "Aldy.Props.C04Tight"]
+PROPS = ["Aldy.Props.C04", "Aldy.Props.C04Score", "Aldy.Props.C04Tight", "Aldy.Props.C04Spec"]
 TRUSTED_EXTRA = ["GeneView serialiser", "iteration order of the considered-variant set is transmitted from the implementation (tie-breaker coefficients depend on it)"]
 ASSUMPTIONS = ["evidence tables avoid exact float boundaries of the threshold filter"]
 TOL = 1e-6
@@ -592,6 +592,9 @@ def tie(ctx):
             if call["yields"] and call["result"]:
                 reqs.append({"op": "minor_readout", **w, "active": list(call["yields"][0][2])})
                 metas.append(("readout", d, real, call))
+                # spec level (Props/C04Spec): documented objective of the assignment the first yield reports, decided by Lean
+                reqs.append({"op": "minor_spec", **w, "active": list(call["yields"][0][2])})
+                metas.append(("spec", d, real, call))
         why = oracle(real, d)
         if why:
             violations.append({"why": why[0], "all": why[:6], "input": d, "signature": "c04:" + " ".join(why[0].split(" ")[:3])})
@@ -606,7 +609,7 @@ def tie(ctx):
                 stats["with_added"] += any(a.added for a in s.solution)
                 stats["with_missing"] += any(a.missing for a in s.solution)
     outs = lib.driver_batch(reqs)
-    fam = {k: {"cases": 0, "disagreements": []} for k in ("minor_structure", "minor_readout", "minor_score")}
+    fam = {k: {"cases": 0, "disagreements": []} for k in ("minor_structure", "minor_readout", "minor_score", "minor_spec_score")}
     famhit = collections.Counter()
     distinct = set()
     samples = []
@@ -614,6 +617,15 @@ def tie(ctx):
         if meta is None:
             continue
         kind, d, real, call = meta
+        if kind == "spec":
+            # minor_optimum_score_is_spec: the objective reported for the optimum is specMinor of the assignment it reports
+            # (the tie-breaker is part of specMinor; solver tolerance 1e-6)
+            fam["minor_spec_score"]["cases"] += 1
+            if not o["defs_considered"]:
+                stats["spec_hypothesis_fails"] += 1
+            elif abs(float(Fraction(o["spec"])) - call["yields"][0][1]) > 1e-6:
+                fam["minor_spec_score"]["disagreements"].append({"why": f"objective {call['yields'][0][1]} reported for the optimum differs from the documented objective specMinor = {float(Fraction(o['spec']))} of the assignment it reports", "input": d})
+            continue
         if kind == "build":
             fam["minor_structure"]["cases"] += 1
             if call["snap"] is None:
